@@ -28,9 +28,10 @@ Play(t, s, ord, i, acc) ==
        IN Play(t, post, ord, i + 1,
                [maxRem |-> IF rem > acc.maxRem THEN rem ELSE acc.maxRem,
                 res |-> acc.res \o <<post.res>>,
-                multiHead |-> acc.multiHead \/ nh > 1])
+                multiHead |-> acc.multiHead \/ nh > 1,
+                ended |-> acc.ended /\ Ended(post)])
 
-Features(t, ord) == Play(t, InitState(t), ord, 1, [maxRem |-> 0, res |-> <<>>, multiHead |-> FALSE])
+Features(t, ord) == Play(t, InitState(t), ord, 1, [maxRem |-> 0, res |-> <<>>, multiHead |-> FALSE, ended |-> TRUE])
 
 Init == tree \in TreesUpTo(N, Gaps) /\ order = <<>>
 (* fork switches only as the last operation (the model state is not carried in the generator, so
